@@ -3,6 +3,8 @@ import XmppModel.Lemmas.StartTLS
 import XmppModel.Lemmas.StartTLSShape
 import XmppModel.Lemmas.StartTLSFuel
 import XmppModel.Lemmas.StartTLSName
+import XmppModel.Lemmas.ByteDecoder
+import XmppModel.Lemmas.StartTLSRechunk
 import XmppModel.Generated.C02
 /-!
 # C02 — a client asked to use STARTTLS never proceeds in clear text
@@ -164,9 +166,16 @@ theorem C02_hello_names (cfg : Cfg) (env : Env) (st0 : Mask) (i : Input) (fuel :
   rw [this]
   cases env.captured <;> rfl
 
-/-- **Server name.**  For every history of sessions (any configurations, peers, outcomes)
-negotiated with one value of `StartTLS(nil)`, every ClientHello of the k-th session names the
-domain of the k-th session's own address. -/
+/-- **The server name is a function of the local address only.**  Two sessions that differ only in
+their remote address (the `location` argument of `NewSession`: a hosting domain, the other
+server of an s2s stream) have the same trace — the same ClientHello names — and outcome. -/
+theorem C02_remote_address_irrelevant (cfg : Cfg) (env : Env) (r : Nat) (st0 : Mask) (i : Input) (fuel : Nat) :
+    run cfg { env with remote := r } st0 i fuel = run cfg env st0 i fuel := rfl
+
+/-- **Server name.**  For every history of sessions (any configurations, own and remote
+domains equal or different, c2s or s2s state, any peers and outcomes) negotiated with one value
+of `StartTLS(nil)`, every ClientHello of the k-th session names the domainpart of the k-th
+session's OWN address. -/
 theorem C02_servername (specs : List SessionSpec) :
     ∀ (k : Nat) (r : List Ev × Outcome) (x : SessionSpec),
       (history none specs)[k]? = some r → specs[k]? = some x →
@@ -179,34 +188,78 @@ theorem C02_servername (specs : List SessionSpec) :
     | zero =>
       simp only [history, List.getElem?_cons_zero, Option.some.injEq] at hr hx
       subst hr hx
-      exact C02_hello_names y.cfg ⟨y.domain, none⟩ y.state0 y.input y.fuel n hn
+      exact C02_hello_names y.cfg ⟨y.domain, y.remote, none⟩ y.state0 y.input y.fuel n hn
     | succ k =>
       simp only [history, List.getElem?_cons_succ] at hr hx
       rw [C02_feature_value_unchanged] at hr
       exact ih k r x hr hx n hn
 
 /-- the feature-value-level summary used by the `sni` protocol line: the ClientHello names of a
-list of sessions that get as far as `kind` says -/
-theorem C02_servername_summary (l : List (Nat × Kind)) :
-    sessions none l = l.map fun dk => match dk.2 with
-      | .p | .x => some (Name.dom dk.1)
+list of sessions (own domain, remote domain, s2s flag) that get as far as `kind` says -/
+theorem C02_servername_summary (l : List SniSess) :
+    sessions none l = l.map fun x => match x.kind with
+      | .p | .x => some (Name.dom x.domain)
       | _ => none := by
   induction l with
   | nil => rfl
-  | cons dk rest ih =>
-    obtain ⟨d, k⟩ := dk
+  | cons x rest ih =>
+    obtain ⟨d, r, s2s, k⟩ := x
     cases k <;> simp [sessions, negotiateName, ih]
 
 /-- with an explicit configuration every ClientHello names that configuration's server -/
-theorem C02_servername_explicit (l : List (Nat × Kind)) :
-    sessions (some .explicit) l = l.map fun dk => match dk.2 with
+theorem C02_servername_explicit (l : List SniSess) :
+    sessions (some .explicit) l = l.map fun x => match x.kind with
       | .p | .x => some Name.explicit
       | _ => none := by
   induction l with
   | nil => rfl
-  | cons dk rest ih =>
-    obtain ⟨d, k⟩ := dk
+  | cons x rest ih =>
+    obtain ⟨d, r, s2s, k⟩ := x
     cases k <;> simp [sessions, negotiateName, ih]
+
+/-! ### Bytes: units split across reads, re-chunking
+
+`encoding/xml` is a parameter (`Tokeniser`): for the bytes from a unit boundary on it says whether
+a complete unit is a prefix of them; a longer input does not change an answer already given and
+a unit has at least one byte.  The peer's byte stream may be cut into reads anywhere. -/
+
+/-- **What the decoder delivers does not depend on the chunking.**  For two chunkings of the same
+byte stream (read-ahead ++ remaining chunks), any number of pulls delivers the same units. -/
+theorem C02_rechunking_units (tk : Tokeniser) (k : Nat) (cs1 cs2 : List Bs) (b1 b2 : Bs)
+    (h : b1 ++ cs1.flatten = b2 ++ cs2.flatten) : unitsB tk k cs1 b1 = unitsB tk k cs2 b2 :=
+  unitsB_rechunk tk k cs1 cs2 b1 b2 h
+
+/-- **The unit/segment model is the byte-level decoder.**  The byte-level decoder with read-ahead
+over any chunking behaves as the unit-level decoder (`pullU` — which is `pull` of the session
+model in clear text, `pull_clear_ok`/`pull_clear_stop`) over the induced segmentation, in which a
+unit split across reads belongs to the read that completes it: same unit (or both at the end of
+the stream), and afterwards again corresponding read-ahead and remaining input — so what sits in
+the read-ahead when a new layer is installed corresponds as well. -/
+theorem C02_byte_decoder_refines (tk : Tokeniser) (cs : List Bs) (b : Bs) :
+    match pullB tk cs b with
+    | some (u, b', cs') =>
+      pullU (tokAll tk b).1 (absChunks tk (tokAll tk b).2 cs) =
+        some (u, (tokAll tk b').1, absChunks tk (tokAll tk b').2 cs')
+    | none => pullU (tokAll tk b).1 (absChunks tk (tokAll tk b).2 cs) = none :=
+  pullB_refines tk cs b
+
+/-- **The clear-text phase is invariant under re-chunking of the peer's byte stream.**  Two
+sessions whose peers send the same clear-text bytes cut into reads differently go through the
+negotiator call in lock step: the same writes and deliveries (equal traces), the same stop reason,
+or the same result (mask, new layer) with sessions that still differ only in the cut.  (Once a
+TLS layer is installed the read-ahead is dropped: *that* depends on the cut, and is the subject
+of `C02_prebuffer_dropped`.) -/
+theorem C02_rechunking_clear_phase (tk : Tokeniser) (cfg : FCfg) (env : Env) (st0 : Mask) (cs1 cs2 : List Bs)
+    (prot : List PItem) (oracle : List (Nat × NegRes)) (fuel : Nat) (h : cs1.flatten = cs2.flatten) :
+    RelRes (step cfg fuel (initBytes tk env st0 cs1 prot oracle))
+           (step cfg fuel (initBytes tk env st0 cs2 prot oracle)) :=
+  step_sync cfg fuel _ _ (initBytes_sync tk env st0 cs1 cs2 prot oracle h)
+
+/-- the tokeniser contract is satisfiable, and the decoder does split/merge reads: "HP" delivered
+as one read or as two gives the same two units -/
+example : unitsB byteTokeniser 5 [[72, 80]] [] = [.hdr true, .proceed] ∧
+    unitsB byteTokeniser 5 [[72], [], [80]] [] = [.hdr true, .proceed] :=
+  ⟨rfl, rfl⟩
 
 /-! ### Non-vacuity -/
 
@@ -222,7 +275,7 @@ example : Compliant cfg1.toFCfg 0 := by
 /-- an empty first features list: the client asks for TLS anyway and, told to proceed, ends with
 a protected session — header and request in clear, everything else inside the layer -/
 example :
-    run cfg1 ⟨2, none⟩ 0 ⟨[[.hdr true, .list []], [.proceed, .hdr true]], [.unit (.hdr true), .unit (.list [])],
+    run cfg1 ⟨2, 3, none⟩ 0 ⟨[[.hdr true, .list []], [.proceed, .hdr true]], [.unit (.hdr true), .unit (.list [])],
       [(0, ⟨0, false, false⟩)]⟩ 10 =
     ([.wHdr false, .deliver true false, .deliver true false, .wStartTLS false, .deliver true false,
       .switch, .hello (.dom 2), .wHdr true, .deliver false true, .deliver false true], .done 5 true true) := by
@@ -230,26 +283,26 @@ example :
 
 /-- the hypothesis matters: a feature that does not require `Secure` does write in clear text -/
 example :
-    Ev.wOther 1 false ∈ (run { rr := false, rt := false, others := [⟨1, 0, 0, true⟩], tee := false } ⟨0, none⟩ 0
+    Ev.wOther 1 false ∈ (run { rr := false, rt := false, others := [⟨1, 0, 0, true⟩], tee := false } ⟨0, 1, none⟩ 0
       ⟨[[.hdr true, .list [⟨0, false, true⟩, ⟨1, false, true⟩]]], [], [(1, ⟨0, false, false⟩)]⟩ 10).1 := by
   decide +kernel
 
 /-- the first-features-list flag matters: the same empty list read with the flag lost (what the
 negotiator did with a tee before the fix) makes the session ready in clear text -/
 example :
-    (loop cfg1 10 false { init ⟨0, none⟩ 0 ⟨[[.hdr true, .list []]], [], []⟩ with first := false }).2
+    (loop cfg1 10 false { init ⟨0, 1, none⟩ 0 ⟨[[.hdr true, .list []]], [], []⟩ with first := false }).2
       = .done 4 false false := by
   decide +kernel
 
 /-- … and with the flag in place the client asks for TLS and, the peer being silent, fails -/
 example :
-    (loop cfg1 10 false (init ⟨0, none⟩ 0 ⟨[[.hdr true, .list []]], [], [(0, ⟨0, false, false⟩)]⟩)).2
+    (loop cfg1 10 false (init ⟨0, 1, none⟩ 0 ⟨[[.hdr true, .list []]], [], [(0, ⟨0, false, false⟩)]⟩)).2
       = .stop (.err .read) := by
   decide +kernel
 
 /-- optional STARTTLS refused: an error, never a clear-text session -/
 example :
-    (run cfg1 ⟨0, none⟩ 0 ⟨[[.hdr true, .list [⟨0, false, true⟩]], [.failure]], [], [(0, ⟨0, false, false⟩)]⟩ 10).2
+    (run cfg1 ⟨0, 1, none⟩ 0 ⟨[[.hdr true, .list [⟨0, false, true⟩]], [.failure]], [], [(0, ⟨0, false, false⟩)]⟩ 10).2
       = .stop (.err .refused) := by
   decide +kernel
 
